@@ -349,8 +349,14 @@ func runValue(c Case, o *Out) {
 		expect = append(expect, t)
 	}
 	o.ExpectText = strings.Join(expect, ",")
-	rw := &adminapi.ReadWritePath{Path: "/leaf", TypeOpts: []uint64{uint64(v.Width)}}
-	rw3 := &configapiv3.ReadWritePath{Path: "/leaf", TypeOpts: []uint64{uint64(v.Width)}}
+	opt := uint64(v.Width)
+	if v.Type == "decimal" {
+		// a client may write 1.5 as (15, 1) on a leaf with fraction-digits 3: the model's option is deliberately
+		// different from the precision of the value, which is what must survive
+		opt = uint64(v.Width%6) + 2
+	}
+	rw := &adminapi.ReadWritePath{Path: "/leaf", TypeOpts: []uint64{opt}}
+	rw3 := &configapiv3.ReadWritePath{Path: "/leaf", TypeOpts: []uint64{opt}}
 	// v2
 	n2, err := valuesv2.GnmiTypedValueToNativeType(tv, rw)
 	if err != nil {
